@@ -269,14 +269,15 @@ class Searches(Facet):
     name = "searches_observed"
 
     def budget(self, tier):
-        return (40, 6) if tier == "quick" else (300, 16)
+        return (80, 8) if tier == "quick" else (400, 16)
 
     def strategy(self, tier):
         fl = Flags(dependent=False, user_mh=False, max_concrete=5, max_abstract=2, tuples=False)
+        shapes = st.sampled_from(["default", "default", "vary-then-elitism", "vary-then-tournament", "select-vary"])
         return st.builds(
-            lambda spec, rep, alg, budget, pop, seed, minimize, mod, multi: {
+            lambda spec, rep, alg, budget, pop, seed, minimize, mod, multi, shape: {
                 "spec": spec, "rep": rep, "decider": "maxdepth", "depth_extra": 2, "seed": seed, "gene_length": 32, "ops": [],
-                "alg": alg, "budget": budget, "popsize": pop, "minimize": minimize, "mod": mod, "multi": multi,
+                "alg": alg, "budget": budget, "popsize": pop, "minimize": minimize, "mod": mod, "multi": multi, "shape": shape,
             },
             specs(fl),
             st.sampled_from(["tree", "tree", "ge", "dsge"]),
@@ -287,7 +288,24 @@ class Searches(Facet):
             st.booleans(),
             st.sampled_from([2, 3, 5]),
             st.booleans(),
+            shapes,
         )
+
+    @staticmethod
+    def gp_step(shape):
+        """Step shapes for GP searches. 'vary-then-elitism': elitism over freshly produced offspring
+        with k == len keeps (and therefore presents to the tracker) every offspring it evaluated;
+        'vary-then-tournament': offspring that lose every tournament are evaluated inside the step
+        but never presented to the tracker (recorded finding)."""
+        from vk.steps import build_step
+
+        if shape == "vary-then-elitism":
+            return build_step(["seq", [["mutation", 1.0], ["elitism"]]])
+        if shape == "vary-then-tournament":
+            return build_step(["seq", [["mutation", 1.0], ["tournament", 2, True]]])
+        if shape == "select-vary":
+            return build_step(["seq", [["tournament", 3, False], ["mutation", 1.0]]])
+        return None
 
     def run(self, case, rec):
         import hashlib
@@ -344,6 +362,9 @@ class Searches(Facet):
                 return None if not bs else sum(bs[0].get_fitness(tracker.problem).fitness_components)
 
             rec.label("alg:" + case["alg"], "rep:" + case["rep"], "multi" if multi else "single")
+            behind = case["alg"] == "gp" and case["shape"] == "vary-then-tournament"
+            if case["alg"] == "gp":
+                rec.label("gp-step:" + case["shape"])
             budget = SpyBudget(EvaluationBudget(case["budget"]))
             try:
                 if multi:
@@ -356,13 +377,13 @@ class Searches(Facet):
 
                     problem = MultiObjectiveProblem([minimize, minimize], ff2)
                     tracker = MultiObjectiveProgressTracker(problem, SequentialEvaluator(), recorders=[spy])
-                    alg = GeneticProgramming(problem=problem, budget=budget, representation=w.rep, random=w.random, tracker=tracker, population_size=max(2, case["popsize"]))
+                    alg = GeneticProgramming(problem=problem, budget=budget, representation=w.rep, random=w.random, tracker=tracker, population_size=max(2, case["popsize"]), step=self.gp_step(case["shape"]))
                     best = alg.search()
                 else:
                     _, best = w.search(
                         case["alg"], case["budget"], case["popsize"], fitness=ff, minimize=minimize,
                         tracker=lambda problem: SingleObjectiveProgressTracker(problem, SequentialEvaluator(), recorders=[spy]),
-                        budget_obj=budget,
+                        budget_obj=budget, step=self.gp_step(case["shape"]) if case["alg"] == "gp" else None,
                     )
                     problem = w.last_problem
                     tracker = w.last_algorithm.tracker
@@ -398,7 +419,7 @@ class Searches(Facet):
                 opt = min(invoked[:n_inv]) if minimize else max(invoked[:n_inv])
                 if bv is None or better(opt, bv, minimize):
                     rec.fail(
-                        f"C12/search/{case['alg']}/best-at-budget-check-not-optimal",
+                        "C12/search/gp/individual-evaluated-inside-a-step-is-never-presented-to-the-tracker" if behind else f"C12/search/{case['alg']}/best-at-budget-check-not-optimal",
                         f"budget check after {n_inv} fitness invocations: reported best {bv}, but {opt} was evaluated (minimize={minimize}); grammar {spec_str(case['spec'])}",
                     )
                     break
@@ -407,7 +428,7 @@ class Searches(Facet):
                 opt = min(invoked) if minimize else max(invoked)
                 if best is None or better(opt, val(best), minimize):
                     rec.fail(
-                        f"C12/search/{case['alg']}/returned-individual-not-optimal",
+                        "C12/search/gp/individual-evaluated-inside-a-step-is-never-presented-to-the-tracker" if behind else f"C12/search/{case['alg']}/returned-individual-not-optimal",
                         f"search() returned fitness {None if best is None else val(best)} but {opt} was evaluated (minimize={minimize}); grammar {spec_str(case['spec'])}",
                     )
                 elif not multi and best is not tracker.get_best_individual():
